@@ -32,7 +32,7 @@ def base_scene(sc):
     return img
 
 
-REPS = ['f64', 'int16', 'int32', 'int64', 'uint8', 'float32', 'bigendian_f8',
+REPS = ['f64', 'int16', 'int32', 'int64', 'uint8', 'uint16', 'float32', 'bigendian_f8',
         'bigendian_i4', 'fortran', 'negstride', 'sliced_view', 'masked_nomask',
         'masked_false', 'quantity']
 
@@ -44,7 +44,7 @@ def convert(a, rep):
     a = np.asarray(a, dtype=float)
     if rep == 'f64':
         return a.copy(), None
-    if rep in ('int16', 'int32', 'int64', 'uint8'):
+    if rep in ('int16', 'int32', 'int64', 'uint8', 'uint16'):
         return a.astype(rep), None
     if rep == 'float32':
         return a.astype('f4'), None
@@ -106,7 +106,7 @@ def make_context(sc, rep='f64', condition='clean', masked_array_mask=False,
     bkg = np.full((ny, nx), float(sc['pedestal']))
     X.parents = []
     crep = rep
-    if rep in ('int16', 'int32', 'int64', 'uint8', 'bigendian_i4') and \
+    if rep in ('int16', 'int32', 'int64', 'uint8', 'uint16', 'bigendian_i4') and \
             not np.all(np.isfinite(img)):
         crep = 'f64'
     X.d, p = convert(img, crep)
@@ -184,7 +184,7 @@ def make_context(sc, rep='f64', condition='clean', masked_array_mask=False,
     if condition in ('nonfinite', 'all'):
         gal[3, 4] = np.nan
     grep = crep if crep != 'uint8' else 'f64'
-    if not np.all(np.isfinite(gal)) and grep in ('int16', 'int32', 'int64', 'bigendian_i4'):
+    if not np.all(np.isfinite(gal)) and grep in ('int16', 'int32', 'int64', 'uint16', 'bigendian_i4'):
         grep = 'f64'
     if grep == 'quantity':
         grep = 'f64'      # Ellipse documents a plain 2D array
